@@ -46,6 +46,7 @@ structure SyncCase where
   depth : Nat
   ffMode : String
   refspecForce : Bool
+  forcedDsts : List String
   lb : RepoObs
   rb : RepoObs
   la : RepoObs
@@ -58,6 +59,9 @@ def syncCaseOf (input impl : Json) : Except String SyncCase := do
            force := (fldD input "force" (Json.bool false)).getBool?.toOption.getD false,
            depth := ← natFld input "depth", ffMode := (fldD input "ffMode" (Json.str "")).getStr?.toOption.getD "",
            refspecForce := (fldD input "refspecForce" (Json.bool false)).getBool?.toOption.getD false,
+           forcedDsts := (match fldD input "forcedDsts" (Json.arr #[]) with
+             | .arr a => a.toList.filterMap (fun x => x.getStr?.toOption)
+             | _ => []),
            lb := ← repoObsOf (← fld input "localBefore"), rb := ← repoObsOf (← fld input "remoteBefore"),
            la := ← repoObsOf (← fld v "localAfter"), ra := ← repoObsOf (← fld v "remoteAfter"),
            failed := (fldD v "failed" (Json.bool false)).getBool?.toOption.getD false }
@@ -125,7 +129,7 @@ def handleC10 (_op : String) (input impl : Json) : Except String Json := do
   -- which refs may be force-updated by this command
   let forcedRef := fun (side : String) (n : String) =>
     c.action != "merge" && (c.force ||
-      (side == "local" && (c.action == "fetch" && c.refspecForce && n.startsWith "remotes/")) ||
+      (side == "local" && (c.action == "fetch" && ((c.refspecForce && n.startsWith "remotes/") || c.forcedDsts.contains n))) ||
       -- `wrgl pull` fetches through the remote's configured refspec (+refs/heads/*:refs/remotes/origin/*)
       (side == "local" && c.action == "pull" && n.startsWith "remotes/"))
   let check := fun (side : String) (before after : RepoObs) =>
@@ -149,7 +153,7 @@ def handleC10 (_op : String) (input impl : Json) : Except String Json := do
     if c.action == "fetch" then
       (c.rb.refs.filter (fun p => p.1.startsWith "heads/")).map (fun p =>
         let dst := "remotes/origin/" ++ (p.1.drop 6).toString
-        (dst, fetchDecision (c.lb.ref? dst) p.2 false (c.force || c.refspecForce) isAnc))
+        (dst, fetchDecision (c.lb.ref? dst) p.2 false (c.force || c.refspecForce || c.forcedDsts.contains dst) isAnc))
     else []
   let modelRemote : List (String × RefDecision) :=
     if c.action == "push" then
